@@ -19,7 +19,7 @@ RULE = ("Hypothesis generates a pattern from a grammar (literals incl. spaces, n
 ASSUMPTIONS = ["patterns with ill-defined shell meaning (unterminated '[', ']' first in a set, "
                "reversed ranges, backslash, empty pattern) are not generated"]
 
-LIT = list("abAB1._- ") + ["é", "\n", "%", "+", "=", "中"]
+LIT = list("abAB1._- ~") + ["é", "\n", "%", "+", "=", "中", "~"]
 
 
 def examples(tier):
